@@ -666,7 +666,7 @@ impl Property for C14 {
     }
     fn budget(&self, tier: Tier) -> u64 {
         match tier {
-            Tier::Quick => 3_000,
+            Tier::Quick => 10_000,
             Tier::Thorough => 300_000,
         }
     }
